@@ -640,7 +640,10 @@ pub fn run_check(check: &Check, tier: &str) -> i32 {
 		for e in &a.harness_errors {
 			eprintln!("HARNESS-ERROR: {e}");
 		}
-		return 2;
+		// a violation that was reported above reproduces from its own replay file and stands on its own feet (the
+		// code under test may, for instance, have started to leak a process-global counter into its replies, which
+		// shows both as a violation and as event logs that differ between two executions)
+		return if exit == 1 { 1 } else { 2 };
 	}
 	if evals > 0 && inconclusive * 100 > evals {
 		eprintln!("HARNESS-ERROR: {inconclusive} of {evals} runs hit the step limit (> 1 %)");
